@@ -11,6 +11,14 @@ disassembler / assembler / C binding / firmware tools produce (AsmTrace.tla):
 3. Firmware: each of the four hwtest firmware sources line by line next to the shipped cdc.bin: every line
    assembles to exactly the shipped word(s), every shipped instruction prints as its source line; and the
    repository's own makedsp1 (built from the working tree) reproduces each shipped binary byte for byte.
+4. Firmware tools in general (spec/Dsp1.tla): TLC checks on all small sources that the reader recovers exactly the
+   assembler's segments, that data areas are disjoint and binary_size is their end, and that a program segment
+   lists as the instruction stream of its source (MC_Dsp1; a negative configuration must fail); random firmware
+   sources (every kind of line incl. every error exit, lexical noise, targets above 16 bits, up to 10 segments)
+   go through the repository's own makedsp1 and dsp1_reader built from the working tree, and the exit status,
+   message and line, every header field, descriptor, data word and stray byte of the file, the reader's summary
+   and its listing (addresses, words, second words, text = the source line) must be what Dsp1.tla says
+   (tools/dsp1_rec.py, Dsp1Trace.tla).
 TLC also checks the table-level clauses on all 65536 words (MC_Decode: one row per word, Canon idempotent
 and a bit-subset of w).
 """
@@ -18,12 +26,13 @@ import os
 import vlib
 
 FINISH = dict(rule='all 65536 first words x 4 second words (token round trip, joined text, C binding); every buffer '
-                   'size 0..len+2 for sampled words; every line of the 4 firmware sources', exhaustive=True)
+                   'size 0..len+2 for sampled words; every line of the 4 firmware sources; all firmware sources of up to 4 (5) items on the '
+                   'container specification, hundreds of random sources through the real makedsp1 / dsp1_reader', exhaustive=True)
 FIRMS = ['dsptester', 'dspapbptester', 'dspmemorytester', 'dspvictester']
 
 
 def run(ck):
-    ck.build('asm_rec', 'makedsp1')
+    ck.build('asm_rec', 'makedsp1', 'dsp1_reader')
     ck.mc('MC_Decode', 'MC_Decode_quick.cfg', timeout=1800, coverage=False)
     n = 16
     step = 65536 // n
@@ -59,10 +68,32 @@ def run(ck):
         else:
             same += 1
     ck.extra_cov['firmware_binaries_identical'] = same
+    # 4. the firmware tools against Dsp1.tla
+    ck.mc('MC_Dsp1', ck.pick('MC_Dsp1.cfg', 'MC_Dsp1_deep.cfg'), workers=8, timeout=1800, coverage=False)
+    r = ck.mc('MC_Dsp1', 'MC_Dsp1_neg.cfg', workers=4, must_hold=False, coverage=False)
+    if not r.violated:
+        raise vlib.Infra('MC_Dsp1_neg.cfg (two-word data words inside a program segment) must violate the stream clause')
+    tool = os.path.join(os.path.dirname(os.path.dirname(os.path.abspath(__file__))), 'dsp1_rec.py')
+    pool = os.path.join(ck.work, 'dsp1_pool.json')
+    p = vlib.sh('python3 %s --make-pool --asm %s --pool %s --work %s' % (tool, ck.bin('asm_rec'), pool, ck.work), timeout=600)
+    if p.returncode != 0:
+        raise vlib.Infra('dsp1_rec --make-pool failed:\n' + p.stdout[-2000:])
+    dfiles = [os.path.join(ck.work, 'dsp1_%02d.ndjson' % i) for i in range(16)]
+    ck.run_jobs(['python3 %s --pool %s --makedsp1 %s --reader %s --n %d --seed %d --work %s --out %s' %
+                 (tool, pool, ck.bin('makedsp1'), ck.bin('dsp1_reader'), ck.pick(40, 400), ck.seed * 100 + i, ck.work, f)
+                 for i, f in enumerate(dfiles)], timeout=3000)
+    os.remove(pool)
+    ck.validate_traces('Dsp1Trace', 'Trace_Dsp1.cfg', dfiles, timeout=1800, jvm=['-Xss256m'], sig_prefix='dsp1')
+    ck.sample_lines(dfiles[0], 1, skip=1)
+    ck.extra_cov['firmware_sources_generated'] = sum(1 for f in dfiles for _ in open(f))
     ck.assumptions += ['TeakDecodeTable.tla was transcribed once from the pinned decoder.h and is frozen in /verif',
                        'execution equality of a word and its canonical form follows from same decode row + operands (C02) and C01',
                        'TLC, CommunityModules and g++ are trusted']
 
 
 def replay(ck, path):
-    ck.validate_traces('AsmTrace', 'Trace_Asm.cfg', [path.split('#')[0]])
+    f = path.split('#')[0]
+    if os.path.basename(f).startswith('dsp1_'):
+        ck.validate_traces('Dsp1Trace', 'Trace_Dsp1.cfg', [f], jvm=['-Xss256m'], sig_prefix='dsp1')
+    else:
+        ck.validate_traces('AsmTrace', 'Trace_Asm.cfg', [f])
